@@ -552,6 +552,9 @@ def generate():
     from .translate_rg import generate_rg
 
     status.update(generate_rg(gen))
+    from .translate_smo import generate_smo
+
+    status.update(generate_smo(gen))
     return status
 
 
